@@ -21,7 +21,7 @@ type Engine struct{ tier string }
 func New() sim.Engine { return &Engine{} }
 
 func (e *Engine) Setup(tier string) error { e.tier = tier; return nil }
-func (e *Engine) Strides() []int           { return []int{opDraws} }
+func (e *Engine) Strides() []int          { return []int{opDraws} }
 
 const opDraws = 6
 
